@@ -161,6 +161,35 @@ def no_state_outside_the_story(chk, prog):
                    '%s keeps data in a cell that lives outside every Story (%s): what it stores is not released when the '
                    'story is dropped or reset, and it grows with every story played on the thread' % (root, cs), fn.loc(bb))
 
+    # --- every destructor runs: nothing is deliberately taken out of Rust's ownership -----------------------------------
+    RF = 'C18.no-destructor-is-skipped'
+    chk.rule(RF, 'Releasing memory on drop relies on every owner running its destructor: no function of the runtime calls '
+             'mem::forget, ManuallyDrop::new, Box::leak / Vec::leak / String::leak, Rc::into_raw / Box::into_raw or '
+             'Rc::increment_strong_count. A forgotten guard that holds an Rc of the call stack keeps the call stack, and '
+             'through its start-of-root pointer the whole content tree, alive for ever - no cycle and no global cell '
+             'involved (seed C18-6).')
+    LEAKS = ('mem::forget', 'ManuallyDrop', '::leak', '::into_raw', 'increment_strong_count', 'into_raw_with_allocator')
+    n, bad = 0, []
+    for fn in sorted(prog.fns.values(), key=lambda f: f.p):
+        if fn.crate != 'bladeink' or '::tests::' in fn.p:
+            continue
+        n += 1
+        for bb, t in fn.calls():
+            d = (t['f'].get('def') or '') + ' ' + (t['f'].get('full') or '')
+            if t.get('macro') and any(m in str(t.get('macro')) for m in ('format', 'write', 'json', 'vec', 'println')):
+                continue
+            hit = [x for x in LEAKS if x in d]
+            if hit:
+                bad.append((fn, bb, callee_short(t)))
+    chk.floor(RF, 'runtime functions examined', n, 600)
+    if not bad:
+        chk.ok(RF, chk.key(RF, 'no-leaking-call'), 'no runtime function takes a value out of ownership (forget / leak / into_raw)')
+    for fn, bb, cs in bad:
+        root = prog.root_fn(fn).short
+        chk.fail(RF, chk.key(RF, root, cs),
+                 '%s calls %s: the value handed over is never dropped, and every Rc it holds keeps its target (call stack, '
+                 'content tree) allocated after the story is gone' % (root, cs), fn.loc(bb))
+
 
 def places_of_stmt(s):
     out = [s['pl']]
